@@ -8,7 +8,7 @@ Steps: (1) the patch is the worktree's uncommitted diff of tracked files; the de
 its untracked *_test.go file(s); (2) in the worktree: the existing suite passes with the patch
 (TestSeedDemo excluded), TestSeedDemo fails with the patch and passes without it; (3) the patch
 is applied to /repo, the given checks (default: the property's own) run in quick tier, and the
-patch is removed again (git checkout -- .)."""
+patch is removed again (git checkout -- .). The checks must pass on the unchanged tree first."""
 import json, os, subprocess, sys, shutil, time
 
 ENV = dict(os.environ, GOFLAGS="-mod=mod", GOPROXY="off", GOSUMDB="off", GOTOOLCHAIN="local")
@@ -43,15 +43,21 @@ def main():
     rc1, o1 = sh(f"go test {race}{count} -run 'TestSeedDemo' " + " ".join(demo_pkgs), cwd=wt, timeout=900)
     meta["demo_fails_with_patch"] = rc1 != 0
     meta["ran"].append({"cmd": f"go test {race}{count} -run TestSeedDemo (patched)", "rc": rc1, "tail": o1[-800:]})
-    sh("git stash", cwd=wt)
+    # (the worktrees of one repository share refs/stash: reverse-apply the patch instead of stashing)
+    sh(f"git apply -R {out}/patch.diff", cwd=wt)
     rc2, o2 = sh(f"go test {race}{count} -run 'TestSeedDemo' " + " ".join(demo_pkgs), cwd=wt, timeout=900)
-    sh("git stash pop", cwd=wt)
+    sh(f"git apply {out}/patch.diff", cwd=wt)
     meta["demo_passes_without_patch"] = rc2 == 0
     meta["ran"].append({"cmd": f"go test {race}{count} -run TestSeedDemo (unpatched)", "rc": rc2, "tail": o2[-400:]})
     # (3) my checks against the patched /repo
     rc, o = sh("git status --porcelain", cwd="/repo")
     if o.strip():
         sys.exit("/repo is not clean: " + o)
+    # a detection only counts if the same check is quiet on the unchanged tree
+    for c in checks:
+        rc, o = sh(f"./run.sh {c} quick", cwd="/verif", timeout=3000)
+        if rc != 0:
+            sys.exit(f"check {c} does not pass on the unchanged tree (exit {rc}): fix that first")
     rc, o = sh(f"git apply {out}/patch.diff", cwd="/repo")
     if rc != 0:
         sys.exit("patch does not apply to /repo: " + o)
